@@ -15,7 +15,12 @@ Record eobs := {
   e_memo : list str           (* names memoised after UnmarshalMsgpEvent of an event carrying every field *)
 }.
 
-Record case := { c_prefix : str; c_rules : rules; c_events : list eobs }.
+(* collector level: one trace driven through the real InMemCollector (processSpan + decision on a
+   single worker, in arrival order); co_tag identifies the rules-file entry whose sampler decided it
+   (every entry's sampler answers with a reason naming the entry; sd_type holds the same tag) *)
+Record cobs := { co_dest : dest; co_tag : N }.
+
+Record case := { c_prefix : str; c_rules : rules; c_events : list eobs; c_coll : list cobs }.
 
 (* field lists are compared as sets *)
 Definition canon_set (l : list str) : list str := compact (ssort l).
@@ -37,7 +42,11 @@ Definition obs_agrees (c : case) (e : eobs) : bool :=
   set_eqb (e_all e) (fst (sampler_reads (expected_def c e))) &&
   set_eqb (e_nonroot e) (snd (sampler_reads (expected_def c e))).
 
-Definition model_agrees (c : case) : bool := forallb (obs_agrees c) (c_events c).
+Definition coll_agrees (c : case) (o : cobs) : bool :=
+  N.eqb (co_tag o) (type_of (decide_sampler (c_prefix c) (c_rules c) (co_dest o) [])).
+
+Definition model_agrees (c : case) : bool :=
+  forallb (obs_agrees c) (c_events c) && forallb (coll_agrees c) (c_coll c).
 
 (* ---- property monitor (written against the documented shapes, not against the model) ---- *)
 (* documented shapes, checked position by position *)
@@ -74,5 +83,21 @@ Definition per_event (c : case) (e : eobs) : codes :=
   (* 14: a field the sampler reads was not made available at ingestion *)
   (if subset_b (e_all e) (e_memo e) && subset_b (e_nonroot e) (e_memo e) then [] else [14%N]).
 
+(* 16: the collector decided a trace with the sampler of another destination (the entry the
+   documented selection names for this trace's key shape, environment, dataset and DatasetPrefix,
+   or __default__ when that name has no sampler, is not the one that answered) *)
+Definition doc_type_dest (c : case) (d : dest) : N :=
+  let name := if doc_classic (d_key d)
+              then match c_prefix c with [] => d_dataset d | p => p ++ [DOT] ++ d_dataset d end
+              else d_env d in
+  match rfind name (c_rules c) with
+  | Some s => sd_type s
+  | None => match rfind DEFAULT (c_rules c) with Some s => sd_type s | None => 0%N end
+  end.
+
+Definition per_coll (c : case) (o : cobs) : codes :=
+  if N.eqb (co_tag o) (doc_type_dest c (co_dest o)) then [] else [16%N].
+
 Definition check (c : case) : codes :=
-  (if model_agrees c then [] else [code_mismatch]) ++ flat_map (per_event c) (c_events c).
+  (if model_agrees c then [] else [code_mismatch]) ++ flat_map (per_event c) (c_events c) ++
+  nodup N.eq_dec (flat_map (per_coll c) (c_coll c)).
